@@ -47,7 +47,8 @@ func runC14(c *Ctx) {
 		for _, cs := range callsIn(fn, "internal/counter.New", "internal/counter.NewStack", "counter.New", "counter.NewStack") {
 			d := describe(cs.Common().Args[0])
 			_, isC := constOf(cs.Common().Args[0])
-			okInit := isC || (d == "param:name" && strings.Contains(fname(fn), "init$"))
+			_, isOwnParam := cs.Common().Args[0].(*ssa.Parameter)
+			okInit := isC || (isOwnParam && strings.Contains(fname(fn), "init$"))
 			r.Check("C14.no-text-flow", "counter created in "+fname(fn), m.Pos(cs.Pos()), okInit, "counters of the crash monitor are created only by incrementCounter(name) or with constant names; got "+d)
 		}
 	}
